@@ -117,8 +117,11 @@ def _run(ctx, rep):
         # comes from an add path (or from another such helper)
         from rules.C01 import callers_of
         helpers = {d for d in extra if f.bodies[d].get('vis') != 'pub' and not f.bodies[d].get('trait')}
+        # (other methods of the table that owns the add paths may share such a helper: a handle they do not return is dropped)
+        owners = {norm_ty(f.bodies[m].get('self_ty') or '') for m in makers if m in f.bodies}
+        siblings = {d for d, b_ in f.bodies.items() if b_.get('self_ty') and norm_ty(b_['self_ty']) in owners and not b_.get('trait')}
         for _ in range(3):
-            ok_h = {h for h in helpers if callers_of(f, {h}) <= (set(makers) | helpers | derived_ok)}
+            ok_h = {h for h in helpers if callers_of(f, {h}) <= (set(makers) | helpers | derived_ok | siblings)}
             if ok_h == helpers: break
             helpers = ok_h
         extra = sorted(extra - helpers)
